@@ -77,6 +77,7 @@ type Ctx struct {
 	objofSeen map[*Term]bool
 	preMemo   map[*Term]bool
 	selDepth  int
+	mkMu      sync.Mutex
 }
 
 type UFunc struct {
@@ -102,6 +103,8 @@ func (c *Ctx) mk(t *Term) *Term {
 		}
 	}
 	k := sb.String()
+	c.mkMu.Lock() // solveAll builds case-split terms from several goroutines
+	defer c.mkMu.Unlock()
 	if x, ok := c.tab[k]; ok {
 		return x
 	}
@@ -162,10 +165,10 @@ func (c *Ctx) RealLit(s string) *Term { return c.mk(&Term{Op: "real", Name: s, S
 func (c *Ctx) True() *Term  { return c.Bool(true) }
 func (c *Ctx) False() *Term { return c.Bool(false) }
 
-func (t *Term) IsLit() bool    { return t.Op == "bv" || t.Op == "bool" || t.Op == "int" }
-func (t *Term) IsTrue() bool   { return t.Op == "bool" && t.V == 1 }
-func (t *Term) IsFalse() bool  { return t.Op == "bool" && t.V == 0 }
-func (t *Term) SInt() int64    { return signExt(t.V, t.S.W) }
+func (t *Term) IsLit() bool   { return t.Op == "bv" || t.Op == "bool" || t.Op == "int" }
+func (t *Term) IsTrue() bool  { return t.Op == "bool" && t.V == 1 }
+func (t *Term) IsFalse() bool { return t.Op == "bool" && t.V == 0 }
+func (t *Term) SInt() int64   { return signExt(t.V, t.S.W) }
 func signExt(v uint64, w int) int64 {
 	if w >= 64 {
 		return int64(v)
@@ -1034,8 +1037,14 @@ func (c *Ctx) print(sb *strings.Builder, t *Term, names map[*Term]string, depth 
 		}
 		sb.WriteByte(')')
 	default:
+		op := t.Op
+		if _, abs := names[absMarker]; abs {
+			if n, ok := absName(t); ok {
+				op = n
+			}
+		}
 		sb.WriteByte('(')
-		sb.WriteString(t.Op)
+		sb.WriteString(op)
 		for _, a := range t.Args {
 			sb.WriteByte(' ')
 			c.print(sb, a, names, depth+1)
@@ -1059,6 +1068,44 @@ const smtPrelude = `(declare-datatypes ((Ref 0)) (((nilref) (root (rootid Int)) 
 // Script renders an SMT-LIB script asserting all of `asserts`, followed by
 // check-sat and (optionally) get-value on `values`.
 func (c *Ctx) Script(asserts []*Term, values []*Term, logicHint string) string {
+	main, hard := c.script(asserts, values, false)
+	if hard && len(values) == 0 {
+		// second rendering with multiplication/division/bv2nat abstracted to uninterpreted
+		// functions: an over-approximation, so only its "unsat" answers are used (solver.go)
+		abs, _ := c.script(asserts, nil, true)
+		return main + absSeparator + abs
+	}
+	return main
+}
+
+const absSeparator = ";;;ABSTRACT-ARITHMETIC-VARIANT\n"
+
+var absMarker = &Term{Op: "abs-marker"}
+
+// absName: the uninterpreted function standing for a hard arithmetic operator in the abstract variant.
+func absName(t *Term) (string, bool) {
+	switch t.Op {
+	case "bvmul", "bvudiv", "bvurem", "bvsdiv", "bvsrem":
+		if t.Args[0].IsLit() || t.Args[1].IsLit() {
+			return "", false
+		}
+		return fmt.Sprintf("abs_%s_%d", t.Op, t.S.W), true
+	case "*", "/":
+		if t.S == RealS && len(t.Args) == 2 && t.Args[0].Op != "real" && t.Args[1].Op != "real" {
+			if t.Op == "*" {
+				return "abs_rmul", true
+			}
+			return "abs_rdiv", true
+		}
+	case "bv2nat":
+		if t.Args[0].S.W > 16 {
+			return fmt.Sprintf("abs_bv2nat_%d", t.Args[0].S.W), true
+		}
+	}
+	return "", false
+}
+
+func (c *Ctx) script(asserts []*Term, values []*Term, abs bool) (string, bool) {
 	// collect reachable nodes, refcounts
 	ref := map[*Term]int{}
 	var order []*Term
@@ -1083,6 +1130,24 @@ func (c *Ctx) Script(asserts []*Term, values []*Term, logicHint string) string {
 	sb.WriteString("(set-option :produce-models true)\n")
 	sb.WriteString("(set-logic ALL)\n")
 	sb.WriteString(smtPrelude)
+	hard := false
+	absDecl := map[string]bool{}
+	for _, t := range order {
+		if n, ok := absName(t); ok {
+			hard = true
+			if abs && !absDecl[n] {
+				absDecl[n] = true
+				sb.WriteString("(declare-fun " + n + " (")
+				for i, a := range t.Args {
+					if i > 0 {
+						sb.WriteByte(' ')
+					}
+					sb.WriteString(a.S.s)
+				}
+				sb.WriteString(") " + t.S.s + ")\n")
+			}
+		}
+	}
 	// declarations
 	syms := map[string]*Term{}
 	ufs := map[string]bool{}
@@ -1120,6 +1185,9 @@ func (c *Ctx) Script(asserts []*Term, values []*Term, logicHint string) string {
 	}
 	// shared subterms -> define-fun
 	nm := map[*Term]string{}
+	if abs {
+		nm[absMarker] = "abs"
+	}
 	for _, t := range order {
 		if len(t.Args) == 0 || t.hb {
 			continue
@@ -1146,5 +1214,5 @@ func (c *Ctx) Script(asserts []*Term, values []*Term, logicHint string) string {
 		}
 		sb.WriteString("))\n")
 	}
-	return sb.String()
+	return sb.String(), hard
 }
